@@ -231,10 +231,19 @@ def worker(args):
     rep.extra["mandatory"] = ["kind:df17:bds05", "kind:df17:bds06", "kind:df17:bds08", "kind:df17:bds09", "kind:df17:bds61", "kind:df17:bds62",
                               "kind:df17:bds65", "kind:df18", "kind:df4", "kind:df5", "kind:df0", "kind:df11", "kind:df16", "kind:df20", "kind:df21",
                               "kind:undecodable", "entries-compared-alone-vs-interleaved", "system:rest-entries"] + ["field-non-null:" + f for f in FIELD_KEYS]
-    data = generate(rsmon, tier, seed, shard, nshards)
-    lines = [json.loads(l) for l in data.splitlines() if l.strip()]
-    log = drive_raw(binary, data)
-    check_log(rep, lines, log)
+    # bounded memory: the thorough tier is processed in 25 batches of the quick tier's size (each with its own seed)
+    nbatch = 1 if tier == "quick" else 25
+    for b in range(nbatch):
+        nv = len(rep.violations)
+        data = generate(rsmon, tier, seed + 7919 * b, shard, nshards, scale=1.0 / nbatch)
+        lines = [json.loads(l) for l in data.splitlines() if l.strip()]
+        log = drive_raw(binary, data)
+        check_log(rep, lines, log)
+        # replay files name the generator invocation of their batch
+        for v in rep.violations[nv:]:
+            v["replay"].update({"tier": tier, "seed": seed + 7919 * b, "scale": 1.0 / nbatch, "shard": shard, "nshards": nshards})
+        if b + 1 < nbatch:
+            del log
     # the same scenario (a prefix of it) under valgrind memcheck
     from common import memcheck
     if shard < (2 if tier == "quick" else nshards):
@@ -254,16 +263,15 @@ def worker(args):
     pick = [h for h, v in hist.items() if 10 <= len(v) <= 200]
     for h in rng.sample(pick, min(len(pick), 1 if tier == "quick" else 6)):
         sysjet.c12_scenario(rep, binary, work, rng, hist[h])
-    # replay files name the generator invocation
     for v in rep.violations:
-        v["replay"].update({"tier": tier, "seed": seed, "shard": shard, "nshards": nshards})
+        v["replay"].setdefault("tier", tier)
     return rep.to_dict()
 
 
 def replay(binary, data, rsmon=None):
     rep = Rep("C12")
     r = data["replay"]
-    scen = generate(rsmon, r["tier"], r["seed"], r["shard"], r["nshards"])
+    scen = generate(rsmon, r["tier"], r["seed"], r["shard"], r["nshards"], scale=r.get("scale", 1.0))
     lines = [json.loads(l) for l in scen.splitlines() if l.strip()]
     keep = []
     on = False
